@@ -491,9 +491,15 @@ def c18_stages(tier):
 
 
 # ------------------------------------------------------------------------------------------ renderings (C19)
+def format_tree_post(scripts, seed, tier):
+    """copies of a sample of the tree scenarios that are rendered after an infeasible_elimination"""
+    extra = [dict(s, elim=True) for i, s in enumerate(scripts) if i % 4 == 1 and s.get('kind') == 'tree' and len(s.get('lhs', [])) >= 2]
+    return scripts + extra
+
+
 def c19_stages(tier):
     return [Stage('format-rows', 'Trace_Format', mc=('MC_Format', 'MC_Format_l2.cfg' if tier == 'thorough' else 'MC_Format_l1.cfg'), shard_events=1000, mc_workers=12),
-            Stage('format-trees', 'Trace_Format', mc=('MC_AffTree', 'MC_AffTree_format_q.cfg'), shard_events=300, mc_workers=12),
+            Stage('format-trees', 'Trace_Format', mc=('MC_AffTree', 'MC_AffTree_format_q.cfg'), shard_events=300, mc_workers=12, post=format_tree_post),
             # K = 4: Display of nodes with up to four children (DOT export exists for binary trees only)
             Stage('format-trees-k4', 'Trace_Format', mc=('MC_AffTree', 'MC_AffTree_format_k4.cfg'), shard_events=300, mc_workers=12)]
 
